@@ -268,6 +268,22 @@ def handle (s : Sexp) : D String :=
       match convTerm headTablePy (← decHTerm x) with
       | .ok p => pure (showPTerm p)
       | .error e => pure ("ERR " ++ e.tag)
+  | .list [.atom "nextstep", n, weak, step, horizon, st] => do
+      -- (nextstep n weak step horizon fresh|pending|done) : Next.do_translate -> new state and action
+      let st0 ← match st with
+        | .atom "fresh" => pure NState.fresh
+        | .atom "pending" => pure NState.pending
+        | .atom "done" => pure NState.done
+        | x => dfail "state" x
+      let (st1, a) := nextTranslate (← decNat n) (← decBool weak) (← decNat step) (← decNat horizon) st0
+      let showS := fun (x : NState) => match x with | .fresh => "fresh" | .pending => "pending" | .done => "done"
+      let showA := match a with
+        | .direct t => s!"(direct {t})"
+        | .placeholder v s => s!"(placeholder {if v then 1 else 0} {s})"
+        | .resolve t => s!"(resolve {t})"
+        | .requeue s => s!"(requeue {s})"
+        | .nothing => "(nothing)"
+      pure s!"{showS st1} {showA}"
   | .list (.atom "todo" :: ks) => do
       -- (todo (step rep) ...) : the queue after these add_todo calls
       let keys ← ks.mapM fun k => match k with
